@@ -214,6 +214,12 @@ class TermBuilder:
                 return alts[0]
         return p
 
+    def _reach(self, n: Node) -> Set[int]:
+        cache = self.__dict__.setdefault("_reach_cache", {})
+        if n.id not in cache:
+            cache[n.id] = self.cfg.reachable_from(n)
+        return cache[n.id]
+
     def in_nograd(self, node: Node) -> bool:
         """Is the CFG node lexically inside `with torch.no_grad()` (or inference_mode)?"""
         s = node.stmt if node.stmt is not None else node.ast
@@ -284,7 +290,8 @@ class TermBuilder:
                 if self.selfname and root == self.selfname:
                     # local redefinition of self.attr inside this function?
                     defs = self.cfg.defs_reaching(at, d)
-                    if defs and all(dn.kind == "stmt" for dn in defs) and len(defs) == 1 and self.cfg.dominates(defs[0], at):
+                    if defs and all(dn.kind == "stmt" for dn in defs) and len(defs) == 1 and self.cfg.dominates(defs[0], at) \
+                            and defs[0] is not at:
                         v = self.cfg.value_of_def(defs[0], d)
                         if v is not None and (d, defs[0].id) not in _seen and not isinstance(defs[0].ast, ast.AugAssign):
                             return self._term(v, defs[0], _seen | {(d, defs[0].id)})
@@ -408,7 +415,8 @@ class TermBuilder:
         alts: List[Poly] = []
         for d in defs:
             tag = (name, d.id)
-            if tag in _seen:
+            if tag in _seen or (d.kind != "entry" and d.id in self._reach(at) and (d is at or not self.cfg.dominates(d, at))):
+                # loop-carried definition: canonical recursion atom (not unrolled)
                 alts.append(self.mk(f"rec:{name}@{self.fn.qualname}", "rec", [f"rec:{name}"], e, name=name))
                 continue
             seen2 = _seen | {tag}
@@ -463,7 +471,7 @@ class TermBuilder:
         alts = []
         for dd in defs:
             tag = (name, dd.id)
-            if tag in _seen or dd is d:
+            if tag in _seen or dd is d or (dd.kind != "entry" and dd.id in self._reach(d) and not self.cfg.dominates(dd, d)):
                 alts.append(self.mk(f"rec:{name}@{self.fn.qualname}", "rec", [f"rec:{name}"], None, name=name))
                 continue
             fake = ast.Name(id=name, ctx=ast.Load())
@@ -623,6 +631,10 @@ class TermBuilder:
             return inner
         if cn in ADAPTER_FUNCS and e.args:
             return self._term(e.args[0], at, _seen)
+        if cn in ("torch.zeros_like", "torch.zeros", "np.zeros_like", "np.zeros"):
+            return Poly.const(0)
+        if cn in ("torch.ones_like", "torch.ones", "np.ones_like", "np.ones"):
+            return Poly.const(1)
         if isinstance(f, ast.Attribute) and la == "logical_not":
             return Poly.const(1) - self._term(f.value, at, _seen)
         if cn in ("torch.logical_not", "np.logical_not") and e.args:
@@ -775,3 +787,28 @@ def single_atom(tb: "TermBuilder", p: Poly) -> Optional[Atom]:
 
 def mentions(tb: "TermBuilder", p: Poly, pred: Callable[[Atom], bool]) -> bool:
     return any(pred(a) for a, _, _ in walk_atoms(tb, p))
+
+
+def expand_phi(tb: "TermBuilder", p: Poly, limit: int = 16, rounds: int = 3) -> List[Poly]:
+    """Alternatives of p obtained by replacing each top-level phi atom by each of its alternatives."""
+    out = [p]
+    for _ in range(rounds):
+        nxt: List[Poly] = []
+        changed = False
+        for q in out:
+            phis = [k for k in sorted(q.atoms()) if tb.atoms.get(k) is not None and tb.atoms[k].kind == "phi"]
+            if not phis:
+                nxt.append(q)
+                continue
+            k = phis[0]
+            changed = True
+            for alt in tb.atoms[k].sub:
+                nxt.append(q.subst({k: alt}))
+        out = nxt[:limit]
+        if not changed:
+            break
+    uniq: List[Poly] = []
+    for q in out:
+        if q not in uniq:
+            uniq.append(q)
+    return uniq
